@@ -9,6 +9,7 @@ ev = encoded Python value:  ["n"] None | ["b", bool] | ["i", int] | ["f", float.
   ["t", days, seconds, microseconds] timedelta | ["ty", member] OrsoTypes | ["disp", member] ColumnDisposition |
   ["exp", is_object, behaviour, column, config_json, ignore_nulls] expectation (object or its dictionary) |
   ["l", [ev, ...]] list | ["j", json_text] a dict given by its JSON text | ["o", class, repr, truthy] anything else.
+A case may carry "ctx_prec": p - it is then run under decimal.localcontext(prec=p) (the environment).
 Two encoded values are equal iff the Python values have the same class and compare equal (Decimal by numeric value,
 floats by bits).  A column with "same_as": i is the very same Python object as column i (listed twice in the schema; its
 kw is a copy of column i's).  Column names within a schema may repeat (self-join, a column selected twice).  A case may carry "steps": operations performed AFTER the single-shot observations, on the same live objects
@@ -395,11 +396,27 @@ def observe(case):
     import orso.schema as S
     import orso.types as T
 
-    with warnings.catch_warnings():
+    import decimal
+
+    with warnings.catch_warnings(), decimal.localcontext() as ctx:
         warnings.simplefilter("ignore")
+        if case.get("ctx_prec") is not None:      # the environment: the thread's decimal context, for the whole case
+            ctx.prec = case["ctx_prec"]
         if case["kind"] == "flat":
             return _observe_flat(case, S, T)
         return _observe_schema(case, S, T, orjson)
+
+
+def _ctx_kw(case, kw, built):
+    """The model reads the context precision from the regenerated constant (the default context).  Under another context
+    a DECIMAL column declared without a precision is, for the model, the same column declared with precision = the context's
+    (that is all FlatColumn.__init__ takes from the environment): the keyword is added for the Coq side only."""
+    p = case.get("ctx_prec")
+    if p is None or built[0] != "ok" or any(k == "precision" for k, _ in kw):
+        return kw
+    if _a(built[1], "type") == ["ty", "DECIMAL"] and _a(built[1], "precision") == ["i", p]:
+        return kw + [["precision", ["i", p]]]
+    return kw
 
 
 def _kwargs(pairs):
@@ -578,7 +595,7 @@ def _run_schema_steps(case, obs, s, objs, S, T, orjson):
     """the operations of a session, on the live schema object `s` and the live column objects `objs`"""
     obs["refs"] = [_canon(objs, c) for c in objs]
     obs["steps"] = []
-    last = None
+    last = saved = saved_snap = clone = None
     for st in case["steps"]:
         k, o = st[0], None
         try:
@@ -594,7 +611,42 @@ def _run_schema_steps(case, obs, s, objs, S, T, orjson):
                 s.columns.append(objs[st[1]])
             elif k == "list_pop":
                 s.columns.pop()
+            elif k == "save":                 # the caller keeps a dictionary: a value, the schema as it is now
+                saved = s.to_dict()
+                o = dict(_live(s, S), refs=[_canon(objs, c) for c in s.columns])
+                saved_snap = o
+            elif k == "restore_saved":        # ... and restores it later, whatever happened to the live schema since
+                if saved is None:
+                    raise ValueError("C16: restore_saved without an earlier save")
+                o = {"snap": saved_snap, "parse": []}
+                for cd in saved.get("columns", []):
+                    if type(cd) is dict:
+                        o["parse"] += _parse_entries(T, _base(S.FlatColumn, cd, {}), [cd.get("default")])
+
+                def rest_saved():
+                    nonlocal clone
+                    clone = S.RelationSchema.from_dict(saved)
+                    return {"top": [[f.name, enc(getattr(clone, f.name))] for f in dataclasses.fields(S.RelationSchema) if f.name != "columns"],
+                            "cols": [{"cls": type(c).__name__, "attrs": _attrs(c)} for c in clone.columns], "eq": None}
+
+                o["restored"] = _try(rest_saved)
+                obs["parse"] += o.pop("parse")
+            elif k == "edit_copies":          # the restored schema belongs to the caller: editing it must not reach the live one
+                o = {"before": _live(s, S)}
+                if clone is not None:
+                    if type(clone.aliases) is list:
+                        clone.aliases.append("edited-copy")
+                    clone.primary_key = "edited-copy"
+                    for c in clone.columns:
+                        for a in ("aliases", "origin", "default"):
+                            if type(getattr(c, a)) is list:
+                                getattr(c, a).append("edited-copy")
+                        c.nullable = not c.nullable
+                    if clone.columns:
+                        clone.columns.pop()
+                o["after"] = _live(s, S)
             elif k == "scribble":
+                o = {"before": _live(s, S)}
                 if last is not None:          # the returned dictionary belongs to the caller
                     last["name"] = "scribbled"
                     if type(last.get("aliases")) is list:
@@ -603,10 +655,18 @@ def _run_schema_steps(case, obs, s, objs, S, T, orjson):
                         if type(cd) is dict and type(cd.get("aliases")) is list:
                             cd["aliases"].append("scribbled")
                             cd["nullable"] = not cd.get("nullable")
+                        if type(cd) is dict:
+                            for a in ("origin", "default"):
+                                if type(cd.get(a)) is list:
+                                    cd[a].append("scribbled")
                     last["columns"].append({"name": "scribbled"})
+                o["after"] = _live(s, S)
             elif k == "round":
                 o = _observe_round(case, s, objs, S, T)
                 last = o.pop("raw", None)
+                fresh_clone = o.pop("restored_obj", None)
+                if fresh_clone is not None:
+                    clone = fresh_clone
                 obs["parse"] += o.pop("parse")
             elif k == "json":
                 o = _observe_json(objs[st[1]], S, T, orjson)
@@ -619,6 +679,11 @@ def _run_schema_steps(case, obs, s, objs, S, T, orjson):
             o = {"error": _exn(e)}
         obs["steps"].append(o)
     obs["parse"] = _dedupe(obs["parse"])
+
+
+def _live(s, S):
+    return {"top": [[f.name, enc(getattr(s, f.name))] for f in dataclasses.fields(S.RelationSchema) if f.name != "columns"],
+            "cols": [_attrs(c) for c in s.columns]}
 
 
 def _observe_round(case, s, objs, S, T):
@@ -645,6 +710,7 @@ def _observe_round(case, s, objs, S, T):
                 "eq": bool(restored == s)}
 
     o["restored"] = _try(rest)
+    o["restored_obj"] = restored
     if restored is not None:
         o["desc"] = [_description(s), _description(restored)]
         o["validate"] = []
@@ -880,6 +946,22 @@ def _steps_why(case, obs):
                     if v1 != v2:
                         why = "the restored schema must accept and reject the same records: on %s the schema gives %s, the restored %s" % (rec, v1, v2)
                         break
+        elif st[0] == "restore_saved":
+            r = o["restored"]
+            if r[0] == "ok":
+                r = ["ok", dict(r[1], eq=True)]
+            why = _round_why(o["snap"]["top"], o["snap"]["cols"], ["ok", None], r)
+            if why:
+                why = "a dictionary saved earlier must restore the schema as it was when saved: " + why
+        elif st[0] in ("scribble", "edit_copies"):
+            if o["before"] != o["after"]:
+                bad = _diff(o["before"]["top"], o["after"]["top"], set())
+                if len(o["before"]["cols"]) != len(o["after"]["cols"]):
+                    bad.append("%d columns became %d" % (len(o["before"]["cols"]), len(o["after"]["cols"])))
+                for i, (a, b) in enumerate(zip(o["before"]["cols"], o["after"]["cols"])):
+                    bad += ["column %d %s" % (i, x) for x in _diff(a, b, set())]
+                why = ("the %s is a separate object equal to the schema: editing it must leave the schema itself unchanged: %s"
+                       % ("returned dictionary" if st[0] == "scribble" else "restored schema", "; ".join(bad)))
         elif st[0] == "json":
             why = _json_why(o["cur"], o)
         elif st[0] == "flatten":
@@ -1131,7 +1213,7 @@ def to_coq(case, obs):
             return None
         fl = obs.get("flat", DUMMY)
         term = "(%s, %s, %s, %s, %s, %s)" % (
-            _cparse(obs["parse"], I), L.text(case["cls"]), _ckw(case["kw"], I), L.text(obs.get("fresh") or ""),
+            _cparse(obs["parse"], I), L.text(case["cls"]), _ckw(_ctx_kw(case, case["kw"], b), I), L.text(obs.get("fresh") or ""),
             "(%s : result column)" % _cres(b, lambda a: _ccolumn(a, I)),
             _crobs(b[1], fl, I) if b[0] == "ok" else "(RFull (Raise OtherExn))")
         if not case.get("steps") or b[0] != "ok" or "steps" not in obs:
@@ -1163,7 +1245,7 @@ def to_coq(case, obs):
                 _cdesc(obs["desc2"][len(cols)] if len(cols) < len(obs.get("desc2", [])) else DUMMY, I))
         else:
             t = "(mkobs [] [] %s (Raise OtherExn) (RFull (Raise OtherExn)) (RFull (Raise OtherExn)) (Raise OtherExn) (Raise OtherExn))" % _cres(b, lambda a: "")
-        cols.append("(%s, %s)" % (_ckw(spec["kw"], I), t))
+        cols.append("(%s, %s)" % (_ckw(_ctx_kw(case, spec["kw"], b), I), t))
     built = _built(obs)
     od = orest = "(Raise OtherExn)"
     if built is not None:
@@ -1174,6 +1256,7 @@ def to_coq(case, obs):
     if not case.get("steps") or built is None or "steps" not in obs:
         return ("schema", term)
     ops = []
+    saved_refs = None
     for st, o in zip(case["steps"], obs["steps"]):
         k = st[0]
         if o is not None and "error" in o:
@@ -1191,8 +1274,16 @@ def to_coq(case, obs):
             ops.append("(SListAppend %s)" % L.nat(st[1]))
         elif k == "list_pop":
             ops.append("SListPop")
-        elif k == "scribble":
+        elif k in ("scribble", "edit_copies"):
             ops.append("SScribble")
+        elif k == "save":
+            ops.append("SSave")
+            saved_refs = o["refs"]
+        elif k == "restore_saved":
+            if saved_refs is None or any(not (0 <= i < len(built)) for i in saved_refs):
+                ops.append(POISON)
+                break
+            ops.append("(SRestoreSaved %s)" % _corest(o["restored"], [built[i] for i in saved_refs], I))
         elif k == "round":
             if any(not (0 <= i < len(built)) for i in o["refs"]):
                 ops.append(POISON)
@@ -1440,8 +1531,23 @@ def _keyword_declared_cases():
     for tev, extra in ((S_("ARRAY"), [["element_type", S_("INTEGER")]]), (S_("ARRAY<INTEGER>"), []), (S_("ARRAY<VARCHAR>"), [["element_type", S_("INTEGER")]]),
                        (["ty", "ARRAY"], [["element_type", ["ty", "INTEGER"]]]), (S_("ARRAY"), [["element_type", S_("DOUBLE")]])):
         specs.append([["type", tev]] + extra + [["default", ["l", [S_("1"), S_("2")]]]])
+    # derived parameters nobody wrote down: a scale beyond the context precision, with nothing else declared
+    for sc in (29, 30, 38):
+        specs.append([["type", S_("DECIMAL")], ["scale", I_(sc)]])
+    specs.append([["type", ["ty", "DECIMAL"]], ["scale", I_(30)], ["nullable", ["b", False]], ["aliases", ["l", [S_("amt")]]]])
     for kw in specs:
         yield _one([[["name", S_("amount")]] + kw + [ident()]], pk=S_("amount"))
+    # the environment: the same declarations under another decimal context (the precision a bare DECIMAL silently gets)
+    for prec in (50, 39, 10, 3):
+        for kw in ([["type", S_("DECIMAL")]], [["type", ["ty", "DECIMAL"]], ["default", S_("1.5")]], [["type", S_("DECIMAL")], ["scale", I_(2)], ["default", S_("2.25")]],
+                   [["type", S_("DECIMAL(10,2)")], ["default", S_("3.14159")]], [["type", S_("DECIMAL")], ["precision", I_(12)], ["default", S_("1.123456789123")]],
+                   [["type", S_("INTEGER")], ["default", I_(7)]]):
+            c = _one([[["name", S_("amount")]] + kw + [ident()], [["name", S_("other")], ["type", S_("DECIMAL")], ident()]], pk=S_("amount"),
+                     records=[[["amount", ["d", 15, -1]], ["other", ["n"]]]])
+            c["ctx_prec"] = prec
+            yield c
+        for cls in ("FlatColumn", "ConstantColumn"):
+            yield {"kind": "flat", "cls": cls, "focus": None, "ctx_prec": prec, "kw": [["name", S_("amount")], ["type", S_("DECIMAL")], ["default", S_("1.5")], ident()]}
     for cls in ("ConstantColumn", "FunctionColumn", "SparseColumn"):
         for kw in specs[0:2] + specs[12:14] + specs[16:17] + specs[24:25]:
             yield {"kind": "flat", "cls": cls, "focus": None, "kw": [["name", S_("amount")]] + kw + [ident()]}
@@ -1793,6 +1899,24 @@ def _schema_session_cases():
     c = _one(_planets()[:2])
     c["steps"] = [["top_append", S_("only-the-schema")], ["round"], ["list_pop"], ["round"], ["list_pop"], ["round"]]
     yield c
+    # round 6: what the caller holds afterwards - a dictionary saved earlier is a value, a restored schema is its own object
+    tags = [["name", S_("tags")], ["type", S_("ARRAY<VARCHAR>")], ["default", ["l", [S_("a"), S_("b")]]], ["aliases", ["l", [S_("labels")]]],
+            ["origin", ["l", [S_("t1")]]], ["identity", S_("col-tags")]]
+    c = _one(_planets() + [tags], aliases=["l", [S_("bodies")]], records=recs)
+    c["steps"] = [["save"], ["col_append", 2, "aliases", S_("tonnes")], ["top_append", S_("rocks")], ["restore_saved"], ["round"], ["edit_copies"], ["round"],
+                  ["restore_saved"], ["edit_copies"], ["scribble"], ["round"], ["save"], ["col_append", 7, "origin", S_("t")], ["col_append", 7, "aliases", S_("more")],
+                  ["restore_saved"], ["edit_copies"], ["round"], ["json", 7]]
+    yield c
+    for steps in ([["round"], ["edit_copies"], ["round"]], [["round"], ["scribble"], ["round"]],
+                  [["save"], ["top_append", S_("rocks")], ["restore_saved"]], [["save"], ["col_append", 1, "aliases", S_("label")], ["restore_saved"]],
+                  [["save"], ["col_append", 7, "origin", S_("t")], ["restore_saved"], ["edit_copies"], ["round"], ["save"], ["restore_saved"]],
+                  [["save"], ["restore_saved"], ["edit_copies"], ["save"], ["restore_saved"], ["round"]],
+                  # F-C16-13 (fixed by c10b901): a schema restored from a saved dictionary is edited, the SAME dictionary is restored again
+                  [["save"], ["restore_saved"], ["edit_copies"], ["restore_saved"]],
+                  [["save"], ["col_append", 7, "origin", S_("t")], ["restore_saved"], ["edit_copies"], ["restore_saved"], ["edit_copies"], ["restore_saved"], ["round"]]):
+        c = _one(_planets() + [tags], aliases=["l", [S_("bodies")]], records=recs[:1])
+        c["steps"] = steps
+        yield c
 
 
 def _canon_of(cols):
@@ -1832,9 +1956,15 @@ def _random_schema_session(rng):
         elif r < 0.72 and n > 0:
             steps.append(["list_pop"])
             n -= 1
-        elif r < 0.8:
+        elif r < 0.76:
             steps.append(["scribble"])
-        elif r < 0.9:
+        elif r < 0.8:
+            steps.append(["edit_copies"])
+        elif r < 0.84:
+            steps.append(["save"])
+        elif r < 0.88:
+            steps.append(["restore_saved"])
+        elif r < 0.93:
             steps.append(["json", o])
         else:
             steps.append(["round"])
@@ -1850,8 +1980,12 @@ def _random_schema_session(rng):
             continue
         sound.append(st)
     top_list = case["aliases"][0] == "l"
-    out = []
+    out, have_save = [], False
     for st in sound:
+        have_save = have_save or st[0] == "save"
+        if st[0] == "restore_saved" and not have_save:
+            out.append(["save"])
+            have_save = True
         if st[0] == "top_set" and st[1] == "aliases":
             top_list = st[2][0] == "l"
         if st[0] == "top_append" and not top_list:
@@ -2011,6 +2145,11 @@ def corpus():
     yield _one([[["name", S_("b")], ["type", S_("BLOB")], ["default", ["y", []]], ["identity", _ID[0]]],
                 [["name", S_("v")], ["type", S_("VARCHAR[3]")], ["default", S_("abcdef")], ["identity", _ID[1]]],
                 [["name", S_("d")], ["type", S_("DECIMAL(10,2)")], ["default", ["d", 1567, -3]], ["identity", _ID[2]]]])
+    # F-C16-13 (fixed by c10b901): from_dict kept the list objects of the dictionary it was given, so editing a restored schema edited the
+    # saved dictionary and a second restoration from it was no longer the schema that had been saved
+    w = _one([[["name", S_("x")], ["type", S_("INTEGER")], ["aliases", ["l", [S_("y")]]], ["origin", ["l", [S_("t")]]], ["identity", _ID[0]]]], aliases=["l", [S_("a")]])
+    w["steps"] = [["save"], ["restore_saved"], ["edit_copies"], ["restore_saved"]]
+    yield w
     for cls in EXTRAS:
         yield {"kind": "flat", "cls": cls, "focus": None,
                "kw": [["name", S_("q")], ["type", S_("VARCHAR[5]")], ["default", S_("x")], ["aliases", ["l", [S_("al")]]], ["description", S_("dd")],
